@@ -10,7 +10,7 @@ program = {
 }
 behaviour = {"imm": [emit..], "shape": "none|one|list", "resolve": [[fid, val]..], "cancel": [handle..]}
           | {"proc": [step..]}
-step = ["delay", ticks] | ["delayfx", ticks, [emit..]] | ["wait", fid] | ["waitc", tree]
+step = ["delay", ticks] | ["delaye", ticks] | ["delayfx", ticks, [emit..]] | ["wait", fid] | ["waitc", tree]
      | ["resolve", fid, val] | ["cancel", handle] | ["call", [step..]] | ["ret", [emit..]]
      | ["addhook", handle|None, [emit..]]   (attach a completion hook now: to the process's own event or to the event behind a handle)
 tree = fid | ["any"|"all", [tree, tree, ..]]
@@ -26,6 +26,7 @@ from ..ref.engine import EVENT_CAP, TICK
 from .common import beh_of
 
 KINDS = ["a", "b", "c"]
+_SHARED_EMPTY = []      # yielded as the side-effect list by every "delaye" step of every process (never mutated by the harness)
 VALS = st.one_of(st.integers(0, 9), st.integers(0, 9), st.integers(0, 9), st.none())   # resolved values; None is a legal value
 
 
@@ -60,7 +61,8 @@ def tree_strategy(nfut, depth=2):
 def steps_strategy(n, nfut, depth, emits, max_steps=5, futures=True, combinators=True, cancels=True, heavy=False, hook_emits=None):
     delay = st.tuples(st.just("delay"), st.sampled_from([0, 0, 1, 1, 2, 3])).map(list)
     delayfx = st.tuples(st.just("delayfx"), st.sampled_from([0, 0, 1, 2]), st.lists(emits, min_size=1, max_size=2)).map(list)
-    alts = [delay, delay, delayfx]
+    delaye = st.tuples(st.just("delaye"), st.sampled_from([0, 1, 1, 2])).map(list)   # yield d, <one shared empty list object>
+    alts = [delay, delay, delayfx, delaye]
     if futures and nfut:
         alts.append(st.tuples(st.just("wait"), st.integers(0, nfut - 1)).map(list))
         alts.append(st.tuples(st.just("resolve"), st.integers(0, nfut - 1), VALS).map(list))
@@ -150,6 +152,7 @@ class RealRun:
         from happysimulator import Entity, Event, Instant, Simulation
         from happysimulator.core.sim_future import SimFuture, all_of, any_of
         self.prog = prog
+        del _SHARED_EMPTY[:]          # no state may leak between cases
         self.log = []
         self.anomalies = []
         self.Event, self.Instant = Event, Instant
@@ -217,6 +220,9 @@ class RealRun:
                     tag = path + [i]
                     if op == "delay":
                         v = yield st_[1] / 512
+                        run.log.append(("R", self.now.nanoseconds, pid, tag, jsonable(v)))
+                    elif op == "delaye":
+                        v = yield st_[1] / 512, _SHARED_EMPTY     # the same (empty) list object every time, as a constant would be
                         run.log.append(("R", self.now.nanoseconds, pid, tag, jsonable(v)))
                     elif op == "delayfx":
                         now = self.now.nanoseconds
